@@ -120,6 +120,29 @@ Proof.
 Qed.
 Print Assumptions C10_fronts_2d_columns.
 
+(* the 2-D output is in np.where's row-major order: strictly increasing in
+   (row, column), for either axis (no duplicates either) *)
+Theorem C10_fronts_2d_order : forall axis step x, StronglySorted lex_lt (fronts2 axis step x).
+Proof. exact fronts2_sorted. Qed.
+Print Assumptions C10_fronts_2d_order.
+
+(* rises / falls on 2-D input (plain and analog=True): along axis 1 they are,
+   row after row, the rises / falls of that row (list equality); along axis 0
+   (rectangular input) (r, c) is returned iff r is a rise / fall of column c. *)
+Theorem C10_rises_falls_2d : forall s a x,
+  rises2 1 s a x = per_row_idx 0 (rises1 s a) x /\
+  falls2 1 s a x = per_row_idx 0 (falls1 s a) x /\
+  forall nc r c, Forall (fun row => length row = nc) x ->
+    (In (r, c) (rises2 0 s a x) <->
+       0 <= c < Z.of_nat nc /\ In r (rises1 s a (column (Z.to_nat c) x))) /\
+    (In (r, c) (falls2 0 s a x) <->
+       0 <= c < Z.of_nat nc /\ In r (falls1 s a (column (Z.to_nat c) x))).
+Proof.
+  intros s a x. split; [apply rises2_axis1|]. split; [apply falls2_axis1|].
+  intros nc r c H. split; [now apply rises2_axis0|now apply falls2_axis0].
+Qed.
+Print Assumptions C10_rises_falls_2d.
+
 (* ---- end to end ------------------------------------------------------ *)
 
 (* decoding the word that encodes 16 line levels returns the levels; the word
@@ -146,6 +169,39 @@ Theorem C10_ttl_end_to_end : forall ns lines k init evs,
     level init evs e = 1 - level init evs (e - 1).
 Proof. exact ttl_end_to_end. Qed.
 Print Assumptions C10_ttl_end_to_end.
+
+(* polarity in closed form: the j-th event of a line that starts at level
+   `init` is a rise (+1) when init + j is even and a fall (-1) otherwise *)
+Theorem C10_ttl_polarity_alternates : forall ns lines k init evs,
+  length lines = 16%nat -> (k < 16)%nat -> nth k lines (0, []) = (init, evs) ->
+  StronglySorted Z.lt evs -> (forall e, In e evs -> 1 <= e < Z.of_nat ns) ->
+  forall j, (j < length evs)%nat ->
+    nth j (snd (ttl_roundtrip ns lines k)) 0 = 1 - 2 * ((init + Z.of_nat j) mod 2).
+Proof. exact ttl_polarity_alternates. Qed.
+Print Assumptions C10_ttl_polarity_alternates.
+
+(* The whole path through the reader: a raw int16 matrix (any number of
+   channels, imec or nidq with analog sync channels, arbitrary content) whose
+   LAST column holds the words encoding the event trains; read_sync over the
+   whole file; fronts on column k of what it returns: exactly the events of
+   line k, with alternating polarity starting from the initial level. *)
+Theorem C10_ttl_through_reader :
+  forall typ ntr c0 c1 c2 c3 one thr gain floors raw lines k init evs,
+  nsync_of typ c0 c1 c2 c3 = 1 -> 1 <= ntr ->
+  (forall r, In r raw -> Z.of_nat (length r) = ntr) ->
+  (forall i, In i (analog_indices typ c0 c1 c2 c3) -> 0 <= i < ntr) ->
+  (floors = None \/ raw <> [] \/ analog_indices typ c0 c1 c2 c3 = []) ->
+  map (fun r => nth (Z.to_nat (ntr - 1)) r 0) raw = map encode_word (render (length raw) lines) ->
+  length lines = 16%nat -> (k < 16)%nat -> nth k lines (0, []) = (init, evs) ->
+  StronglySorted Z.lt evs -> (forall e, In e evs -> 1 <= e < Z.of_nat (length raw)) ->
+  exists rows,
+    read_sync typ ntr c0 c1 c2 c3 0 (Z.of_nat (length raw)) one thr gain floors raw = Some rows /\
+    length rows = length raw /\
+    fst (fronts1 1 (column k rows)) = evs /\
+    forall j, (j < length evs)%nat ->
+      nth j (snd (fronts1 1 (column k rows))) 0 = 1 - 2 * ((init + Z.of_nat j) mod 2).
+Proof. exact ttl_through_reader. Qed.
+Print Assumptions C10_ttl_through_reader.
 
 (* ---- read_sync ------------------------------------------------------- *)
 
@@ -242,3 +298,14 @@ Example C10_example_read_sync :
   = Some [[1;0;0;0;0;0;0;0;0;0;0;0;0;0;0;0; 0]; [0;1;0;0;0;0;0;0;0;0;0;0;0;0;0;0; 1];
           [1;1;1;1;1;1;1;1;1;1;1;1;1;1;1;1; 0]].
 Proof. vm_compute. reflexivity. Qed.
+
+(* the through-the-reader hypotheses on a concrete 3-channel nidq recording
+   (one analog sync channel, one digital word) *)
+Example C10_example_through_reader :
+  let lines := [(0, [1; 3])] ++ repeat (0, []) 14 ++ [(1, [2])] in
+  let raw := [[9; 500; -32768]; [9; 20000; -32767]; [9; 20000; 1]; [9; 500; 0]] in
+  map (fun r => nth 2 r 0) raw = map encode_word (render 4 lines) /\
+  exists rows, read_sync 1 3 1 0 1 1 0 4 1024 1200 1 (Some [500]) raw = Some rows /\
+    fronts1 1 (column 0 rows) = ([1; 3], [1; -1]) /\ fronts1 1 (column 15 rows) = ([2], [-1]) /\
+    column 16 rows = [0; 1; 1; 0].
+Proof. vm_compute. split; [reflexivity|]. eexists. repeat split. Qed.
